@@ -284,11 +284,17 @@ def battery(d, U, commits, live_commits, heads, qrng_seed):
             q("can_ff/" + k, lambda: can_fast_forward(r, a, b))
             q("ancestors/" + k, lambda: [sorted(x.decode()[:10] for x in s) for s in _collect_ancestors(st, [a], frozenset([b]))])
             q("missing/" + k, lambda: sorted(e[0].decode()[:10] for e in MissingObjectFinder(st, haves=[b], wants=[a])))
+            # shallow boundaries (depth-limited transfers): the walk stops at them whatever answers the parents
+            sh = frozenset(rng.sample(live, min(len(live), rng.choice([1, 2]))))
+            q("ancestors_shallow/" + k, lambda: [sorted(x.decode()[:10] for x in s_) for s_ in _collect_ancestors(st, [a], frozenset(), shallow=sh)])
+            q("missing_shallow/" + k, lambda: sorted(e[0].decode()[:10] for e in MissingObjectFinder(st, haves=[], wants=[a], shallow=set(sh))))
+            q("missing_shallow_have/" + k, lambda: sorted(e[0].decode()[:10] for e in MissingObjectFinder(st, haves=[b], wants=[a], shallow=set(sh))))
             for prefer in (True, False):
                 prov = st.get_reachability_provider(prefer_bitmaps=prefer)
                 kk = "%s/%s" % (k, "pref" if prefer else "nopref")
                 q("reach_commits/" + kk, lambda: sorted(x.decode()[:10] for x in prov.get_reachable_commits([a], exclude=[b])))
                 q("reach_commits1/" + kk, lambda: sorted(x.decode()[:10] for x in prov.get_reachable_commits([a])))
+                q("reach_commits_shallow/" + kk, lambda: sorted(x.decode()[:10] for x in prov.get_reachable_commits([a], shallow=set(sh))))
                 q("reach_objects/" + kk, lambda: sorted(x.decode()[:10] for x in prov.get_reachable_objects([a], exclude_commits=[b])))
                 q("reach_objects1/" + kk, lambda: sorted(x.decode()[:10] for x in prov.get_reachable_objects([a])))
                 q("tree_objects/" + kk, lambda: sorted(x.decode()[:10] for x in prov.get_tree_objects([st[a].tree])))
